@@ -80,33 +80,54 @@ var verifC04mReduced = []int{verifC04kDense, verifC04kDenseViewT, verifC04kBasic
 // 1. Dense.Product
 // ---------------------------------------------------------------------------
 
+// verifC04mConcretize overwrites the (symbolic) storage behind an operand with
+// distinct small non-zero numbers and re-takes the snapshots.
+func verifC04mConcretize(o *verifC04op, seed int) {
+	for i := range o.back {
+		o.back[i] = float64(2 + (5*i+7*seed)%11)
+	}
+	o.back0 = append([]float64(nil), o.back...)
+	for i := 0; i < o.r; i++ {
+		for j := 0; j < o.c; j++ {
+			o.val[i*o.c+j] = o.m.At(i, j)
+		}
+	}
+}
+
 // VerifC04_Product: m.Product(f0, ..., f_{nf-1}) for 1..3 factors equals the
 // chain product computed from the At snapshots, for every receiver state.
-// c04pfull=0: with three factors one position (case-split) ranges over every
-// applicable kind and the other two over {Dense, T() of a strided window,
-// Matrix-only type}; c04pfull=1: the full cross product of kinds.
+// One and two factors: all data symbolic, full cross product of kinds.
+// Three factors: one position pos (case-split) holds symbolic data and ranges
+// over every applicable kind; the other two hold concrete non-zero numbers
+// (c04psym=1: symbolic as well - a degree-3 identity per element, expensive)
+// and range over {Dense, T() of a strided window, Matrix-only type}
+// (c04pfull=1: over every applicable kind).
 func VerifC04_Product() {
 	maxN := verifParam("c04pn", 2)
 	full := verifParam("c04pfull", 0)
-	nf := verifChoose("nf", 1, 3)
+	sym := verifParam("c04psym", 0)
+	nf := verifChoose("nf", verifParam("c04pnfmin", 1), 3)
 	d := make([]int, nf+1)
 	for i := range d {
 		d[i] = verifChoose(verifC04mN("d", i), 1, maxN)
 	}
 	pos := -1
-	if nf == 3 && full == 0 {
+	if nf == 3 {
 		pos = verifChoose("pos", 0, 2)
 	}
 	ops := make([]*verifC04op, nf)
 	ms := make([]Matrix, nf)
 	for f := 0; f < nf; f++ {
 		var k int
-		if pos >= 0 && f != pos {
+		if pos >= 0 && f != pos && full == 0 {
 			k = verifC04mReduced[verifChoose(verifC04mN("k", f), 0, len(verifC04mReduced)-1)]
 		} else {
 			k = verifC04pick(verifC04mN("k", f), d[f], d[f+1])
 		}
 		ops[f] = verifC04mk(verifC04mN("f", f), k, d[f], d[f+1])
+		if pos >= 0 && f != pos && sym == 0 {
+			verifC04mConcretize(ops[f], f)
+		}
 		ms[f] = ops[f].m
 	}
 	want := ops[0].val
@@ -152,8 +173,17 @@ func VerifC04_ProductAlias() {
 		if f == p {
 			continue
 		}
-		k := verifC04pick(verifC04mN("k", f), d[f], d[f+1])
+		var k int
+		if nf == 3 && verifParam("c04pfull", 0) == 0 {
+			k = verifC04mReduced[verifChoose(verifC04mN("k", f), 0, len(verifC04mReduced)-1)]
+		} else {
+			k = verifC04pick(verifC04mN("k", f), d[f], d[f+1])
+		}
 		ops[f] = verifC04mk(verifC04mN("f", f), k, d[f], d[f+1])
+		if nf == 3 && verifParam("c04psym", 0) == 0 {
+			// three factors: only the receiver holds symbolic data (see VerifC04_Product)
+			verifC04mConcretize(ops[f], f)
+		}
 	}
 	for st := 1; st <= 2; st++ {
 		rv := verifC04mkRecv(verifC04nm("m", st, 0), st, r, c)
@@ -672,8 +702,8 @@ func VerifC04_ZeroStructured() {
 				}
 			}
 		}
-	case 4: // BandDense, every shape and bandwidth
-		c := verifChoose("c", 1, maxN)
+	case 4: // BandDense, square, every bandwidth (rectangular: VerifC04_BandZeroRect)
+		c := n
 		kl := verifChoose("kl", 0, n-1)
 		ku := verifChoose("ku", 0, c-1)
 		b := NewBandDense(n, c, kl, ku, verifFloats("b", verifC04min(n, c+kl)*(kl+ku+1)))
@@ -789,6 +819,1438 @@ func verifC04mMkVec(name string, kind, n int) *verifC04vop {
 		o.val[i] = o.v.AtVec(i)
 	}
 	return o
+}
+
+// VerifC04_BandZeroRect: BandDense.Zero on a rectangular band matrix: every
+// element reads 0 afterwards. (OPEN VIOLATION on the unchanged tree, see
+// notes/C04_more.md.)
+func VerifC04_BandZeroRect() {
+	maxN := verifParam("c04sn", 3)
+	r := verifChoose("r", 1, maxN)
+	c := verifChoose("c", 1, maxN)
+	if r == c {
+		return
+	}
+	kl := verifChoose("kl", 0, r-1)
+	ku := verifChoose("ku", 0, c-1)
+	b := NewBandDense(r, c, kl, ku, verifFloats("b", verifC04min(r, c+kl)*(kl+ku+1)))
+	b.Zero()
+	for i := 0; i < r; i++ {
+		for j := 0; j < c; j++ {
+			verifAssert(b.At(i, j) == 0, "BandDense.Zero: every element is zero")
+		}
+	}
+	verifReach("end")
+}
+
+// ---------------------------------------------------------------------------
+// 3. SymDense: SubsetSym, SliceSym / GrowSym views
+// ---------------------------------------------------------------------------
+
+// VerifC04_SubsetSym: s.SubsetSym(a, set): s(i,j) == a(set[i], set[j]) for every
+// Symmetric kind of a, every index list (repeats allowed) and receiver state;
+// ka == verifC04nSymKinds: a is the receiver itself.
+func VerifC04_SubsetSym() {
+	maxN := verifParam("c04sn", 3)
+	n := verifChoose("n", 1, maxN)
+	m := verifChoose("m", 1, maxN)
+	ka := verifChoose("ka", 0, verifC04nSymKinds)
+	set := make([]int, m)
+	for i := range set {
+		set[i] = verifChoose(verifC04mN("s", i), 0, n-1)
+	}
+	set0 := append([]int(nil), set...)
+	if ka == verifC04nSymKinds {
+		if m != n {
+			return
+		}
+		for st := 1; st <= 2; st++ {
+			rv := verifC04mkSRecv(verifC04nm("s", st, 0), st, n)
+			old := verifC04mSnap(rv.s)
+			rv.s.SubsetSym(rv.s, set)
+			want := make([]float64, n*n)
+			for i := 0; i < n; i++ {
+				for j := 0; j < n; j++ {
+					want[i*n+j] = old[set[i]*n+set[j]]
+				}
+			}
+			rv.check(want, "SubsetSym (a is the receiver)")
+		}
+		verifReach("end")
+		return
+	}
+	a := verifC04mkSym("a", ka, n)
+	want := make([]float64, m*m)
+	for i := 0; i < m; i++ {
+		for j := 0; j < m; j++ {
+			want[i*m+j] = a.at(set[i], set[j])
+		}
+	}
+	for st := 0; st <= 2; st++ {
+		rv := verifC04mkSRecv(verifC04nm("s", st, 0), st, m)
+		rv.s.SubsetSym(a.s, set)
+		rv.check(want, "SubsetSym")
+		a.unchanged("SubsetSym a")
+		for i := range set {
+			verifAssert(set[i] == set0[i], "SubsetSym: set unchanged")
+		}
+	}
+	verifReach("end")
+}
+
+// VerifC04_SymViews: SliceSym and GrowSym of a compact SymDense and of a
+// SliceSym window read the values of the parent; DiagView.
+func VerifC04_SymViews() {
+	maxN := verifParam("c04sn", 3)
+	n := verifChoose("n", 1, maxN)
+	st := verifChoose("st", 1, 2)
+	rv := verifC04mkSRecv("s", st, n)
+	s := rv.s
+	val := verifC04mSnap(s)
+	for i := 0; i < n; i++ {
+		for k := i + 1; k <= n; k++ {
+			w := s.SliceSym(i, k)
+			verifAssert(w.SymmetricDim() == k-i, "SliceSym: size")
+			for x := 0; x < k-i; x++ {
+				for y := 0; y < k-i; y++ {
+					verifAssert(verifSame(w.At(x, y), val[(i+x)*n+i+y]), "SliceSym reads the window")
+				}
+			}
+		}
+	}
+	for dn := 0; dn <= 2; dn++ {
+		g := s.GrowSym(dn)
+		verifAssert(g.SymmetricDim() == n+dn, "GrowSym: size")
+		for i := 0; i < n; i++ {
+			for j := 0; j < n; j++ {
+				verifAssert(verifSame(g.At(i, j), val[i*n+j]), "GrowSym keeps the elements")
+			}
+		}
+		if st == 2 && dn <= 1 {
+			// inside the capacity n+1 of the window: a view of the backing
+			w := n + 2
+			for i := 0; i < n+dn; i++ {
+				for j := i; j < n+dn; j++ {
+					verifAssert(verifSame(g.At(i, j), rv.back[(i+1)*w+j+1]), "GrowSym inside the capacity is a view of the backing")
+					verifAssert(verifSame(g.At(j, i), rv.back[(i+1)*w+j+1]), "GrowSym inside the capacity is a view of the backing (symmetric element)")
+				}
+			}
+		}
+	}
+	dv := s.DiagView()
+	verifAssert(dv.Diag() == n, "SymDense.DiagView: size")
+	for i := 0; i < n; i++ {
+		verifAssert(verifSame(dv.At(i, i), val[i*n+i]), "SymDense.DiagView reads the diagonal")
+	}
+	verifAssert(s.SymmetricDim() == n, "views leave the size of the parent unchanged")
+	for i := range rv.back {
+		verifAssert(verifSame(rv.back[i], rv.back0[i]), "views leave the parent's storage unchanged")
+	}
+	verifReach("end")
+}
+
+// ---------------------------------------------------------------------------
+// 3b. TriDense: InverseTri, SolveTo
+// ---------------------------------------------------------------------------
+
+// verifC04mLapack is the real LAPACK implementation with the iterative
+// reciprocal-condition estimator of triangular matrices (Hager/Higham Dlacn2
+// iteration with Dlatrs safe scaling: it explodes on symbolic data and its
+// value is an FP-magnitude statement) replaced by a harness-chosen value.
+type verifC04mLapack struct {
+	lapackgonum.Implementation
+	rcond float64
+}
+
+func (l verifC04mLapack) Dtrcon(norm lapack.MatrixNorm, uplo blas.Uplo, diag blas.Diag, n int, a []float64, lda int, work []float64, iwork []int) float64 {
+	return l.rcond
+}
+
+func verifC04mStubCond() {
+	r := verifFloat("rcond")
+	verifAssume(verifAnd(r >= 1e-15, r <= 1))
+	lapack64.Use(verifC04mLapack{rcond: r})
+}
+
+// VerifC04_InverseTri: t.InverseTri(a) for every Triangular kind of a with a
+// non-zero diagonal: no error, a*t == I, t has a's kind.
+func VerifC04_InverseTri() {
+	maxN := verifParam("c04tn", 2)
+	n := verifChoose("n", 1, maxN)
+	upper := verifChoose("upper", 0, 1) == 1
+	ka := verifChoose("ka", 0, verifC04nTriKinds-1)
+	verifC04mStubCond()
+	a, ok := verifC04mkTri("a", ka, n, upper)
+	if !ok {
+		return
+	}
+	for i := 0; i < n; i++ {
+		verifAssume(a.at(i, i) != 0)
+	}
+	for st := 0; st <= 2; st++ {
+		rv := verifC04mkTRecv(verifC04nm("t", st, 0), st, n, upper)
+		err := rv.t.InverseTri(a.t)
+		verifAssert(err == nil, "InverseTri: no error for a non-zero diagonal")
+		gn, gk := rv.t.Triangle()
+		verifAssert(gn == n && gk == TriKind(upper), "InverseTri: result size and kind")
+		if gn != n {
+			continue
+		}
+		inv := verifC04mSnap(rv.t)
+		prod := verifC04mMul(a.val, n, n, inv, n)
+		for i := 0; i < n; i++ {
+			for j := 0; j < n; j++ {
+				w := 0.0
+				if i == j {
+					w = 1
+				}
+				verifAssertEqF(prod[i*n+j], w, "InverseTri: a * t == I")
+			}
+		}
+		rv.check(inv, "InverseTri") // outside a window receiver untouched
+		a.unchanged("InverseTri a")
+	}
+	verifReach("end")
+}
+
+// VerifC04_TriSolveTo: t.SolveTo(dst, trans, b): op(T)*X == B for every kind of
+// b, T compact or a SliceTri window, upper and lower, three dst states.
+func VerifC04_TriSolveTo() {
+	maxN := verifParam("c04tn", 2)
+	n := verifChoose("n", 1, maxN)
+	nrhs := verifChoose("nrhs", 1, maxN)
+	upper := verifChoose("upper", 0, 1) == 1
+	trans := verifChoose("trans", 0, 1) == 1
+	tst := verifChoose("tst", 1, 2)
+	kb := verifC04pick("kb", n, nrhs)
+	verifC04mStubCond()
+	tr := verifC04mkTRecv("t", tst, n, upper)
+	tval := verifC04mSnap(tr.t)
+	for i := 0; i < n; i++ {
+		verifAssume(tval[i*n+i] != 0)
+	}
+	if trans {
+		tval = verifC04mTrans(tval, n, n)
+	}
+	b := verifC04mk("b", kb, n, nrhs)
+	for st := 0; st <= 2; st++ {
+		rv := verifC04mkRecv(verifC04nm("x", st, 0), st, n, nrhs)
+		err := tr.t.SolveTo(rv.d, trans, b.m)
+		verifAssert(err == nil, "TriDense.SolveTo: no error for a non-zero diagonal")
+		gr, gc := rv.d.Dims()
+		verifAssert(gr == n && gc == nrhs, "TriDense.SolveTo: result shape")
+		if gr != n || gc != nrhs {
+			continue
+		}
+		x := verifC04mSnap(rv.d)
+		prod := verifC04mMul(tval, n, n, x, nrhs)
+		for i := range prod {
+			verifAssertEqF(prod[i], b.val[i], "TriDense.SolveTo: op(T) * X == B")
+		}
+		rv.check(x, "TriDense.SolveTo")
+		b.unchanged("TriDense.SolveTo b")
+		for i := range tr.back {
+			verifAssert(verifSame(tr.back[i], tr.back0[i]), "TriDense.SolveTo: T unchanged")
+		}
+	}
+	verifReach("end")
+}
+
+// ---------------------------------------------------------------------------
+// 3c. DiagDense: DiagFrom, DiagView of every type, SetDiag through the view
+// ---------------------------------------------------------------------------
+
+// VerifC04_DiagFrom: d.DiagFrom(m) for every Matrix kind and shape; receiver
+// zero value, pre-sized, or the diagonal view of a Dense window (Inc > 1).
+func VerifC04_DiagFrom() {
+	maxN := verifParam("c04n", 2)
+	r := verifChoose("r", 1, maxN)
+	c := verifChoose("c", 1, maxN)
+	var a *verifC04op
+	switch src := verifChoose("src", 0, 2); src {
+	case 0: // the core kinds
+		a = verifC04mk("a", verifC04pick("ka", r, c), r, c)
+	case 1: // the banded / structured types with every bandwidth
+		which := verifChoose("which", 0, 8)
+		if which != 0 && r != c {
+			return
+		}
+		a = verifC04mBandFamily("a", which, r, c)
+	default: // transpose wrappers and factorization types
+		wks := verifC04mWKindsFor(r, c)
+		kw := wks[verifChoose("kw", 0, len(wks)-1)]
+		if kw == verifC04wQR && r < c || kw == verifC04wLQ && r > c {
+			return
+		}
+		a = verifC04mMkW("a", kw, r, c)
+	}
+	n := verifC04min(r, c)
+	for st := 0; st <= 2; st++ {
+		var d *DiagDense
+		var back, back0 []float64
+		switch st {
+		case 0:
+			d = &DiagDense{}
+		case 1:
+			back = verifFloats(verifC04mN("d", st), n)
+			d = NewDiagDense(n, back)
+		case 2:
+			back = verifFloats(verifC04mN("d", st), (n+1)*(n+1))
+			d = NewDense(n+1, n+1, back).Slice(1, n+1, 1, n+1).(*Dense).DiagView().(*DiagDense)
+		}
+		back0 = append([]float64(nil), back...)
+		d.DiagFrom(a.m)
+		verifAssert(d.Diag() == n, "DiagFrom: size")
+		if d.Diag() != n {
+			continue
+		}
+		for i := 0; i < n; i++ {
+			verifAssert(verifSame(d.At(i, i), a.at(i, i)), "DiagFrom: diagonal element")
+		}
+		switch st {
+		case 1:
+			for i := 0; i < n; i++ {
+				verifAssert(verifSame(back[i], a.at(i, i)), "DiagFrom: pre-sized receiver storage holds the result")
+			}
+		case 2:
+			w := n + 1
+			for i := 0; i < w; i++ {
+				for j := 0; j < w; j++ {
+					if i == j && i >= 1 {
+						verifAssert(verifSame(back[i*w+j], a.at(i-1, i-1)), "DiagFrom: the diagonal view holds the result")
+					} else {
+						verifAssert(verifSame(back[i*w+j], back0[i*w+j]), "DiagFrom: cells of the parent off the viewed diagonal untouched")
+					}
+				}
+			}
+		}
+		a.unchanged("DiagFrom m")
+	}
+	verifReach("end")
+}
+
+// verifC04mBandFamily builds the banded / structured types with every
+// bandwidth. which: 0 BandDense r×c, 1 SymBandDense, 2 TriBandDense upper,
+// 3 TriBandDense lower, 4 Tridiag, 5 DiagDense, 6 SymDense, 7 TriDense upper,
+// 8 TriDense lower (1..8 square: c is ignored).
+func verifC04mBandFamily(name string, which, r, c int) *verifC04op {
+	o := &verifC04op{r: r, c: r}
+	switch which {
+	case 0:
+		o.c = c
+		kl := verifChoose(name+"kl", 0, r-1)
+		ku := verifChoose(name+"ku", 0, c-1)
+		o.back = verifFloats(name, verifC04min(r, c+kl)*(kl+ku+1))
+		o.m = NewBandDense(r, c, kl, ku, o.back)
+	case 1:
+		k := verifChoose(name+"k", 0, r-1)
+		o.back = verifFloats(name, r*(k+1))
+		o.m = NewSymBandDense(r, k, o.back)
+	case 2, 3:
+		k := verifChoose(name+"k", 0, r-1)
+		o.back = verifFloats(name, r*(k+1))
+		o.m = NewTriBandDense(r, k, TriKind(which == 2), o.back)
+	case 4:
+		o.back = verifFloats(name, 3*r)
+		var dl, du []float64
+		if r > 1 {
+			dl, du = o.back[r:2*r-1], o.back[2*r:3*r-1]
+		}
+		o.m = NewTridiag(r, dl, o.back[:r], du)
+	case 5:
+		o.back = verifFloats(name, r)
+		o.m = NewDiagDense(r, o.back)
+	case 6:
+		o.back = verifFloats(name, r*r)
+		o.m = NewSymDense(r, o.back)
+	case 7, 8:
+		o.back = verifFloats(name, r*r)
+		o.m = NewTriDense(r, TriKind(which == 7), o.back)
+	default:
+		panic("verifC04mBandFamily: which")
+	}
+	verifC04mFinish(o)
+	return o
+}
+
+func verifC04mFinish(o *verifC04op) {
+	gr, gc := o.m.Dims()
+	verifAssert(gr == o.r && gc == o.c, "C04: operand builder shape")
+	o.back0 = append([]float64(nil), o.back...)
+	o.val = verifC04mSnap(o.m)
+}
+
+// VerifC04_DiagViews: DiagView() of every structured type reads the diagonal
+// of the parent; SetDiag through the view changes exactly that element of the
+// parent.
+func VerifC04_DiagViews() {
+	maxN := verifParam("c04sn", 3)
+	which := verifChoose("which", 0, 8)
+	r := verifChoose("r", 1, maxN)
+	c := r
+	if which == 0 {
+		c = verifChoose("c", 1, maxN)
+	}
+	a := verifC04mBandFamily("a", which, r, c)
+	n := verifC04min(r, c)
+	dv := a.m.(interface{ DiagView() Diagonal }).DiagView()
+	verifAssert(dv.Diag() == n, "DiagView: size")
+	dr, dc := dv.Dims()
+	verifAssert(dr == n && dc == n, "DiagView: Dims")
+	for i := 0; i < n; i++ {
+		for j := 0; j < n; j++ {
+			w := 0.0
+			if i == j {
+				w = a.at(i, i)
+			}
+			verifAssert(verifSame(dv.At(i, j), w), "DiagView reads the diagonal")
+		}
+	}
+	a.unchanged("DiagView parent")
+	md := dv.(MutableDiagonal)
+	for k := 0; k < n; k++ {
+		x := verifFloat(verifC04mN("x", k))
+		md.SetDiag(k, x)
+		a.val[k*a.c+k] = x
+		for i := 0; i < a.r; i++ {
+			for j := 0; j < a.c; j++ {
+				verifAssert(verifSame(a.m.At(i, j), a.val[i*a.c+j]), "SetDiag through the view changes exactly one element of the parent")
+			}
+		}
+	}
+	verifReach("end")
+}
+
+// ---------------------------------------------------------------------------
+// 3d. band family: transposes, MulVecTo, SolveTo / SolveVecTo
+// ---------------------------------------------------------------------------
+
+// VerifC04_BandTranspose: At / T / TBand / TTri / TTriBand / Untranspose*
+// consistency of BandDense, SymBandDense, TriBandDense, Tridiag, DiagDense;
+// elements outside the reported bandwidth / triangle read 0.
+func VerifC04_BandTranspose() {
+	maxN := verifParam("c04sn", 3)
+	which := verifChoose("which", 0, 5)
+	r := verifChoose("r", 1, maxN)
+	c := r
+	if which == 0 {
+		c = verifChoose("c", 1, maxN)
+	}
+	a := verifC04mBandFamily("a", which, r, c)
+	r, c = a.r, a.c
+	bd := a.m.(Banded)
+	kl, ku := bd.Bandwidth()
+	for i := 0; i < r; i++ {
+		for j := 0; j < c; j++ {
+			if j-i > ku || i-j > kl {
+				verifAssert(a.at(i, j) == 0, "elements outside the band read 0")
+			}
+		}
+	}
+	chk := func(t Matrix, msg string) {
+		tr, tc := t.Dims()
+		verifAssert(tr == c && tc == r, msg+": Dims are swapped")
+		if tr != c || tc != r {
+			return
+		}
+		for i := 0; i < r; i++ {
+			for j := 0; j < c; j++ {
+				verifAssert(verifSame(t.At(j, i), a.at(i, j)), msg+": At(j, i) == parent At(i, j)")
+			}
+		}
+	}
+	same := func(t Matrix, msg string) {
+		tr, tc := t.Dims()
+		verifAssert(tr == r && tc == c, msg+": Dims")
+		if tr != r || tc != c {
+			return
+		}
+		for i := 0; i < r; i++ {
+			for j := 0; j < c; j++ {
+				verifAssert(verifSame(t.At(i, j), a.at(i, j)), msg+": At")
+			}
+		}
+	}
+	chk(a.m.T(), "T()")
+	same(a.m.T().T(), "T().T()")
+	tb := bd.TBand()
+	chk(tb, "TBand()")
+	tkl, tku := tb.Bandwidth()
+	verifAssert(tkl == ku && tku == kl, "TBand(): bandwidths are swapped")
+	same(tb.TBand(), "TBand().TBand()")
+	chk(tb.T().T(), "TBand().T().T()")
+	if ut, ok := tb.(UntransposeBander); ok {
+		same(ut.UntransposeBand(), "UntransposeBand")
+	}
+	if ut, ok := tb.(Untransposer); ok {
+		same(ut.Untranspose(), "Untranspose")
+	}
+	if sb, ok := a.m.(SymBanded); ok {
+		sn, sk := sb.SymBand()
+		verifAssert(sn == r && sk == kl && sk == ku, "SymBand agrees with Dims and Bandwidth")
+		verifAssert(sb.SymmetricDim() == r, "SymmetricDim")
+		for i := 0; i < r; i++ {
+			for j := 0; j < c; j++ {
+				verifAssert(verifSame(a.at(i, j), a.at(j, i)), "symmetric At")
+			}
+		}
+	}
+	if tbd, ok := a.m.(TriBanded); ok {
+		tn, tk, kind := tbd.TriBand()
+		gn, gkind := tbd.Triangle()
+		verifAssert(tn == r && gn == r && kind == gkind, "TriBand agrees with Triangle")
+		if kind == Upper {
+			verifAssert(kl == 0 && ku == tk, "upper TriBand: Bandwidth is (0, k)")
+		} else {
+			verifAssert(ku == 0 && kl == tk, "lower TriBand: Bandwidth is (k, 0)")
+		}
+		ttb := tbd.TTriBand()
+		chk(ttb, "TTriBand()")
+		n2, k2, kind2 := ttb.TriBand()
+		verifAssert(n2 == r && k2 == tk && kind2 == !kind, "TTriBand(): kind is flipped")
+		g2, gk2 := ttb.Triangle()
+		verifAssert(g2 == r && gk2 == !kind, "TTriBand(): Triangle kind is flipped")
+		bkl, bku := ttb.Bandwidth()
+		verifAssert(bkl == ku && bku == kl, "TTriBand(): bandwidths are swapped")
+		same(ttb.TTriBand(), "TTriBand().TTriBand()")
+		same(ttb.TTri(), "TTriBand().TTri()")
+		same(ttb.TBand(), "TTriBand().TBand()")
+		same(ttb.T(), "TTriBand().T()")
+		if ut, ok := ttb.(UntransposeTriBander); ok {
+			same(ut.UntransposeTriBand(), "UntransposeTriBand")
+		}
+		if ut, ok := ttb.(UntransposeTrier); ok {
+			same(ut.UntransposeTri(), "UntransposeTri")
+		}
+		tt := tbd.TTri()
+		chk(tt, "TTri()")
+		g3, gk3 := tt.Triangle()
+		verifAssert(g3 == r && gk3 == !kind, "TTri(): kind is flipped")
+		same(tt.TTri(), "TTri().TTri()")
+	}
+	a.unchanged("transposes")
+	verifReach("end")
+}
+
+// verifC04mVecArg builds the vector argument for the MulVecTo / SolveVecTo
+// harnesses. kind < verifC04mNVecKinds: a fresh vector; otherwise nil (the
+// destination itself is used).
+func verifC04mVecArg(name string, kind, n int) *verifC04vop {
+	if kind >= verifC04mNVecKinds {
+		return nil
+	}
+	return verifC04mMkVec(name, kind, n)
+}
+
+// VerifC04_BandMulVecTo: MulVecTo of BandDense (every shape and bandwidth),
+// SymBandDense and Tridiag: dst == op(A)*x for every Vector kind of x
+// (including x == dst) and every dst state.
+func VerifC04_BandMulVecTo() {
+	maxN := verifParam("c04sn", 3)
+	wi := verifChoose("which", 0, 2)
+	which := []int{0, 1, 4}[wi]
+	r := verifChoose("r", 1, maxN)
+	c := r
+	if which == 0 {
+		c = verifChoose("c", 1, maxN)
+	}
+	trans := verifChoose("trans", 0, 1) == 1
+	kx := verifChoose("kx", 0, verifC04mNVecKinds)
+	a := verifC04mBandFamily("a", which, r, c)
+	av := a.val
+	m, n := r, c
+	if trans {
+		av = verifC04mTrans(av, r, c)
+		m, n = c, r
+	}
+	x := verifC04mVecArg("x", kx, n)
+	if x == nil && m != n {
+		return
+	}
+	for st := 0; st <= 2; st++ {
+		if x == nil && st == 0 {
+			continue
+		}
+		rv := verifC04mkVRecv(verifC04nm("y", st, 0), st, m)
+		var xv Vector
+		var xval []float64
+		if x != nil {
+			xv, xval = x.v, x.val
+		} else {
+			xv = rv.v
+			xval = make([]float64, n)
+			for i := range xval {
+				xval[i] = rv.v.AtVec(i)
+			}
+		}
+		want := verifC04mMul(av, m, n, xval, 1)
+		switch t := a.m.(type) {
+		case *BandDense:
+			t.MulVecTo(rv.v, trans, xv)
+		case *SymBandDense:
+			t.MulVecTo(rv.v, trans, xv)
+		case *Tridiag:
+			t.MulVecTo(rv.v, trans, xv)
+		}
+		rv.check(want, "MulVecTo")
+		a.unchanged("MulVecTo A")
+		if x != nil {
+			x.unchanged("MulVecTo x")
+		}
+	}
+	verifReach("end")
+}
+
+// verifC04mTridet is the determinant of a tridiagonal matrix (continuant).
+func verifC04mTridet(a []float64, n int) float64 {
+	f0, f1 := 1.0, a[0]
+	for k := 1; k < n; k++ {
+		f0, f1 = f1, a[k*n+k]*f1-a[k*n+k-1]*a[(k-1)*n+k]*f0
+	}
+	return f1
+}
+
+// VerifC04_BandSolveVec: SolveVecTo of TriBandDense (upper / lower, every
+// bandwidth) and Tridiag: nil error => op(A)*x == b; an error only for a
+// singular A; every Vector kind of b (including b == dst), every dst state.
+func VerifC04_BandSolveVec() {
+	maxN := verifParam("c04bn", 2)
+	wi := verifChoose("which", 0, 2)
+	which := []int{2, 3, 4}[wi]
+	n := verifChoose("n", 1, maxN)
+	trans := verifChoose("trans", 0, 1) == 1
+	kb := verifChoose("kb", 0, verifC04mvRowView+1)
+	if kb == verifC04mvRowView+1 {
+		kb = verifC04mNVecKinds // b is dst
+	}
+	a := verifC04mBandFamily("a", which, n, n)
+	av := a.val
+	if trans {
+		av = verifC04mTrans(av, n, n)
+	}
+	var det float64
+	if which == 4 {
+		det = verifC04mTridet(a.val, n)
+	} else {
+		det = 1
+		for i := 0; i < n; i++ {
+			det *= a.at(i, i)
+		}
+	}
+	b := verifC04mVecArg("b", kb, n)
+	for st := 0; st <= 2; st++ {
+		if b == nil && st == 0 {
+			continue
+		}
+		rv := verifC04mkVRecv(verifC04nm("x", st, 0), st, n)
+		var bv Vector
+		var bval []float64
+		if b != nil {
+			bv, bval = b.v, b.val
+		} else {
+			bv = rv.v
+			bval = make([]float64, n)
+			for i := range bval {
+				bval[i] = rv.v.AtVec(i)
+			}
+		}
+		var err error
+		switch t := a.m.(type) {
+		case *TriBandDense:
+			err = t.SolveVecTo(rv.v, trans, bv)
+		case *Tridiag:
+			err = t.SolveVecTo(rv.v, trans, bv)
+		}
+		if err != nil {
+			verifAssert(det == 0, "SolveVecTo: an error is returned only for a singular matrix")
+			rv.outsideUntouched("SolveVecTo (singular)")
+		} else {
+			verifAssert(rv.v.Len() == n, "SolveVecTo: result length")
+			if rv.v.Len() == n {
+				x := make([]float64, n)
+				for i := range x {
+					x[i] = rv.v.AtVec(i)
+				}
+				prod := verifC04mMul(av, n, n, x, 1)
+				for i := range prod {
+					verifAssertEqF(prod[i], bval[i], "SolveVecTo: op(A) * x == b")
+				}
+				rv.check(x, "SolveVecTo")
+			}
+		}
+		a.unchanged("SolveVecTo A")
+		if b != nil {
+			b.unchanged("SolveVecTo b")
+		}
+	}
+	verifReach("end")
+}
+
+// VerifC04_BandSolve: SolveTo of TriBandDense and Tridiag with B of every
+// Matrix kind.
+func VerifC04_BandSolve() {
+	maxN := verifParam("c04bn", 2)
+	maxR := verifParam("c04brhs", 2)
+	wi := verifChoose("which", 0, 2)
+	which := []int{2, 3, 4}[wi]
+	n := verifChoose("n", 1, maxN)
+	nrhs := verifChoose("nrhs", 1, maxR)
+	trans := verifChoose("trans", 0, 1) == 1
+	kb := verifC04pick("kb", n, nrhs)
+	a := verifC04mBandFamily("a", which, n, n)
+	av := a.val
+	if trans {
+		av = verifC04mTrans(av, n, n)
+	}
+	var det float64
+	if which == 4 {
+		det = verifC04mTridet(a.val, n)
+	} else {
+		det = 1
+		for i := 0; i < n; i++ {
+			det *= a.at(i, i)
+		}
+	}
+	b := verifC04mk("b", kb, n, nrhs)
+	for st := 0; st <= 2; st++ {
+		rv := verifC04mkRecv(verifC04nm("x", st, 0), st, n, nrhs)
+		var err error
+		switch t := a.m.(type) {
+		case *TriBandDense:
+			err = t.SolveTo(rv.d, trans, b.m)
+		case *Tridiag:
+			err = t.SolveTo(rv.d, trans, b.m)
+		}
+		if err != nil {
+			verifAssert(det == 0, "SolveTo: an error is returned only for a singular matrix")
+			rv.outsideUntouched("SolveTo (singular)")
+		} else {
+			gr, gc := rv.d.Dims()
+			verifAssert(gr == n && gc == nrhs, "SolveTo: result shape")
+			if gr == n && gc == nrhs {
+				x := verifC04mSnap(rv.d)
+				prod := verifC04mMul(av, n, n, x, nrhs)
+				for i := range prod {
+					verifAssertEqF(prod[i], b.val[i], "SolveTo: op(A) * X == B")
+				}
+				rv.check(x, "SolveTo")
+			}
+		}
+		a.unchanged("SolveTo A")
+		b.unchanged("SolveTo B")
+	}
+	verifReach("end")
+}
+
+// ---------------------------------------------------------------------------
+// 4. CDense and the CMatrix kinds
+// ---------------------------------------------------------------------------
+
+// verifC04mCbasic exposes only the CMatrix interface.
+type verifC04mCbasic struct {
+	r, c int
+	data []complex128
+}
+
+func (b *verifC04mCbasic) Dims() (int, int) { return b.r, b.c }
+func (b *verifC04mCbasic) At(i, j int) complex128 {
+	if i < 0 || i >= b.r || j < 0 || j >= b.c {
+		panic("verifC04mCbasic: index out of range")
+	}
+	return b.data[i*b.c+j]
+}
+func (b *verifC04mCbasic) H() CMatrix { return ConjTranspose{b} }
+func (b *verifC04mCbasic) T() CMatrix { return CTranspose{b} }
+
+const (
+	verifC04mcDense  = iota // compact *CDense
+	verifC04mcView          // *CDense window, stride > cols
+	verifC04mcT             // T() of a compact *CDense
+	verifC04mcH             // H() of a *CDense window
+	verifC04mcBasic         // CMatrix-only type
+	verifC04mcBasicH        // H() of it
+	verifC04mcTH            // T() of H() of a compact *CDense: element-wise conjugate
+	verifC04mNCKinds
+)
+
+type verifC04mCop struct {
+	m     CMatrix
+	r, c  int
+	back  []complex128
+	back0 []complex128
+	val   []complex128
+}
+
+func (o *verifC04mCop) at(i, j int) complex128 { return o.val[i*o.c+j] }
+
+func verifC04mSameC(a, b complex128) bool {
+	return verifAnd(verifSame(real(a), real(b)), verifSame(imag(a), imag(b)))
+}
+
+func verifC04mConj(z complex128) complex128 { return complex(real(z), -imag(z)) }
+
+func verifC04mCSnap(m CMatrix) []complex128 {
+	r, c := m.Dims()
+	v := make([]complex128, r*c)
+	for i := 0; i < r; i++ {
+		for j := 0; j < c; j++ {
+			v[i*c+j] = m.At(i, j)
+		}
+	}
+	return v
+}
+
+func verifC04mMkC(name string, kind, r, c int) *verifC04mCop {
+	o := &verifC04mCop{r: r, c: c}
+	switch kind {
+	case verifC04mcDense:
+		o.back = verifComplexes(name, r*c)
+		o.m = NewCDense(r, c, o.back)
+	case verifC04mcView:
+		o.back = verifComplexes(name, (r+2)*(c+2))
+		o.m = NewCDense(r+2, c+2, o.back).Slice(1, r+1, 1, c+1)
+	case verifC04mcT:
+		o.back = verifComplexes(name, r*c)
+		o.m = NewCDense(c, r, o.back).T()
+	case verifC04mcH:
+		o.back = verifComplexes(name, (r+2)*(c+2))
+		o.m = NewCDense(c+2, r+2, o.back).Slice(1, c+1, 1, r+1).H()
+	case verifC04mcBasic:
+		o.back = verifComplexes(name, r*c)
+		o.m = &verifC04mCbasic{r: r, c: c, data: o.back}
+	case verifC04mcBasicH:
+		o.back = verifComplexes(name, r*c)
+		o.m = (&verifC04mCbasic{r: c, c: r, data: o.back}).H()
+	case verifC04mcTH:
+		o.back = verifComplexes(name, r*c)
+		o.m = NewCDense(r, c, o.back).H().T()
+	default:
+		panic("verifC04mMkC: kind")
+	}
+	gr, gc := o.m.Dims()
+	verifAssert(gr == r && gc == c, "C04: complex operand builder shape")
+	o.back0 = append([]complex128(nil), o.back...)
+	o.val = verifC04mCSnap(o.m)
+	return o
+}
+
+func (o *verifC04mCop) unchanged(msg string) {
+	for i := range o.back {
+		verifAssert(verifC04mSameC(o.back[i], o.back0[i]), msg+": operand storage unchanged")
+	}
+	gr, gc := o.m.Dims()
+	verifAssert(gr == o.r && gc == o.c, msg+": operand shape unchanged")
+	for i := 0; i < o.r; i++ {
+		for j := 0; j < o.c; j++ {
+			verifAssert(verifC04mSameC(o.m.At(i, j), o.val[i*o.c+j]), msg+": operand At unchanged")
+		}
+	}
+}
+
+// verifC04mCrecv: *CDense receiver, states as verifC04recv.
+type verifC04mCrecv struct {
+	d     *CDense
+	state int
+	r, c  int
+	back  []complex128
+	back0 []complex128
+}
+
+func verifC04mMkCRecv(name string, state, r, c int) *verifC04mCrecv {
+	rv := &verifC04mCrecv{state: state, r: r, c: c}
+	switch state {
+	case 0:
+		rv.d = &CDense{}
+	case 1:
+		rv.back = verifComplexes(name, r*c)
+		rv.d = NewCDense(r, c, rv.back)
+	case 2:
+		rv.back = verifComplexes(name, (r+2)*(c+2))
+		rv.d = NewCDense(r+2, c+2, rv.back).Slice(1, r+1, 1, c+1).(*CDense)
+	default:
+		panic("verifC04mMkCRecv: state")
+	}
+	rv.back0 = append([]complex128(nil), rv.back...)
+	return rv
+}
+
+func (rv *verifC04mCrecv) check(want []complex128, msg string) {
+	gr, gc := rv.d.Dims()
+	verifAssert(gr == rv.r && gc == rv.c, msg+": result shape")
+	if gr != rv.r || gc != rv.c {
+		return
+	}
+	for i := 0; i < rv.r; i++ {
+		for j := 0; j < rv.c; j++ {
+			verifAssertEqC(rv.d.At(i, j), want[i*rv.c+j], msg+": result element equals the generic definition")
+		}
+	}
+	switch rv.state {
+	case 1:
+		for i := range want {
+			verifAssertEqC(rv.back[i], want[i], msg+": pre-sized receiver storage holds the result")
+		}
+	case 2:
+		s := rv.c + 2
+		for i := 0; i < rv.r+2; i++ {
+			for j := 0; j < s; j++ {
+				if i >= 1 && i <= rv.r && j >= 1 && j <= rv.c {
+					verifAssertEqC(rv.back[i*s+j], want[(i-1)*rv.c+j-1], msg+": view window holds the result")
+				} else {
+					verifAssert(verifC04mSameC(rv.back[i*s+j], rv.back0[i*s+j]), msg+": backing outside the receiver window untouched")
+				}
+			}
+		}
+	}
+}
+
+// VerifC04_CDenseWrappers: H() and T() of every CMatrix kind: conjugate
+// transpose / transpose of the At values, involutions, CEqual over pairs of
+// kinds.
+func VerifC04_CDenseWrappers() {
+	maxN := verifParam("c04n", 2)
+	r := verifChoose("r", 1, maxN)
+	c := verifChoose("c", 1, maxN)
+	ka := verifChoose("ka", 0, verifC04mNCKinds-1)
+	kb := verifChoose("kb", 0, verifC04mNCKinds-1)
+	a := verifC04mMkC("a", ka, r, c)
+	h, t := a.m.H(), a.m.T()
+	hr, hc := h.Dims()
+	tr, tc := t.Dims()
+	verifAssert(hr == c && hc == r && tr == c && tc == r, "H(), T(): Dims are swapped")
+	for i := 0; i < r; i++ {
+		for j := 0; j < c; j++ {
+			verifAssert(verifC04mSameC(h.At(j, i), verifC04mConj(a.at(i, j))), "H().At(j, i) == conj(At(i, j))")
+			verifAssert(verifC04mSameC(t.At(j, i), a.at(i, j)), "T().At(j, i) == At(i, j)")
+			verifAssert(verifC04mSameC(h.H().At(i, j), a.at(i, j)), "H().H() is the matrix")
+			verifAssert(verifC04mSameC(t.T().At(i, j), a.at(i, j)), "T().T() is the matrix")
+			verifAssert(verifC04mSameC(h.T().At(i, j), verifC04mConj(a.at(i, j))), "H().T() is the element-wise conjugate")
+			verifAssert(verifC04mSameC(t.H().At(i, j), verifC04mConj(a.at(i, j))), "T().H() is the element-wise conjugate")
+		}
+	}
+	b := verifC04mMkC("b", kb, r, c)
+	allEq := true
+	for i := range a.val {
+		allEq = verifAnd(allEq, a.val[i] == b.val[i])
+	}
+	verifAssert(verifIff(CEqual(a.m, b.m), allEq), "CEqual(a, b) <=> every element of a equals the element of b")
+	verifAssert(!CEqual(a.m, b.m.T()) || r == c, "CEqual: shapes differ => false")
+	a.unchanged("a")
+	b.unchanged("b")
+	verifReach("end")
+}
+
+// VerifC04_CDenseCopyConj: m.Copy(a) (common block, every receiver shape) and
+// m.Conj(a) for every CMatrix kind and receiver state.
+func VerifC04_CDenseCopyConj() {
+	maxN := verifParam("c04n", 2)
+	r := verifChoose("r", 1, maxN)
+	c := verifChoose("c", 1, maxN)
+	ka := verifChoose("ka", 0, verifC04mNCKinds-1)
+	a := verifC04mMkC("a", ka, r, c)
+	want := make([]complex128, r*c)
+	for i := range want {
+		want[i] = verifC04mConj(a.val[i])
+	}
+	for st := 0; st <= 2; st++ {
+		rv := verifC04mMkCRecv(verifC04nm("m", st, 0), st, r, c)
+		rv.d.Conj(a.m)
+		rv.check(want, "CDense.Conj")
+		a.unchanged("CDense.Conj a")
+	}
+	for rr := 1; rr <= maxN; rr++ {
+		for cc := 1; cc <= maxN; cc++ {
+			for st := 1; st <= 2; st++ {
+				rv := verifC04mMkCRecv("c"+verifC04nm("m", st, rr*4+cc), st, rr, cc)
+				old := verifC04mCSnap(rv.d)
+				gr, gc := rv.d.Copy(a.m)
+				verifAssert(gr == verifC04min(r, rr) && gc == verifC04min(c, cc), "CDense.Copy: returned extent is the common block")
+				w := make([]complex128, rr*cc)
+				for i := 0; i < rr; i++ {
+					for j := 0; j < cc; j++ {
+						if i < r && j < c {
+							w[i*cc+j] = a.at(i, j)
+						} else {
+							w[i*cc+j] = old[i*cc+j]
+						}
+					}
+				}
+				rv.check(w, "CDense.Copy")
+				a.unchanged("CDense.Copy a")
+			}
+		}
+	}
+	verifReach("end")
+}
+
+// VerifC04_CDenseViews: Set/At, Zero, Slice, Grow, Reset/ReuseAs of a compact
+// CDense and of a strided window.
+func VerifC04_CDenseViews() {
+	maxN := verifParam("c04n", 2)
+	r := verifChoose("r", 1, maxN)
+	c := verifChoose("c", 1, maxN)
+	st := verifChoose("st", 1, 2)
+	rv := verifC04mMkCRecv("m", st, r, c)
+	m := rv.d
+	val := verifC04mCSnap(m)
+	for i := 0; i < r; i++ {
+		for k := i + 1; k <= r; k++ {
+			for j := 0; j < c; j++ {
+				for l := j + 1; l <= c; l++ {
+					s := m.Slice(i, k, j, l)
+					sr, sc := s.Dims()
+					verifAssert(sr == k-i && sc == l-j, "CDense.Slice: shape")
+					for x := 0; x < k-i; x++ {
+						for y := 0; y < l-j; y++ {
+							verifAssert(verifC04mSameC(s.At(x, y), val[(i+x)*c+j+y]), "CDense.Slice reads the window")
+						}
+					}
+				}
+			}
+		}
+	}
+	for dr := 0; dr <= 2; dr++ {
+		for dc := 0; dc <= 2; dc++ {
+			g := m.Grow(dr, dc)
+			gr, gc := g.Dims()
+			verifAssert(gr == r+dr && gc == c+dc, "CDense.Grow: shape")
+			for i := 0; i < r; i++ {
+				for j := 0; j < c; j++ {
+					verifAssert(verifC04mSameC(g.At(i, j), val[i*c+j]), "CDense.Grow keeps the elements")
+				}
+			}
+			if st == 2 && dr <= 1 && dc <= 1 {
+				s := c + 2
+				for i := 0; i < r+dr; i++ {
+					for j := 0; j < c+dc; j++ {
+						verifAssert(verifC04mSameC(g.At(i, j), rv.back[(i+1)*s+j+1]), "CDense.Grow inside the capacity is a view of the backing")
+					}
+				}
+			}
+		}
+	}
+	for i := range rv.back {
+		verifAssert(verifC04mSameC(rv.back[i], rv.back0[i]), "views leave the parent's storage unchanged")
+	}
+	// Set changes exactly one element
+	zs := verifComplexes("z", r*c)
+	for i := 0; i < r; i++ {
+		for j := 0; j < c; j++ {
+			m.Set(i, j, zs[i*c+j])
+			val[i*c+j] = zs[i*c+j]
+			rv.check(val, "CDense.Set")
+		}
+	}
+	// Zero clears exactly the window
+	m.Zero()
+	rv.check(make([]complex128, r*c), "CDense.Zero")
+	if st == 1 {
+		r2 := verifChoose("r2", 1, maxN)
+		c2 := verifChoose("c2", 1, maxN)
+		pan, fault, _ := verifCatch(func() { m.ReuseAs(r2, c2) })
+		verifAssert(pan && !fault, "CDense.ReuseAs on a non-empty receiver panics")
+		m.Set(0, 0, 1)
+		m.Reset()
+		gr, gc := m.Dims()
+		verifAssert(m.IsEmpty() && gr == 0 && gc == 0, "CDense.Reset: empty")
+		m.ReuseAs(r2, c2)
+		gr, gc = m.Dims()
+		verifAssert(gr == r2 && gc == c2, "CDense.ReuseAs: shape")
+		for i := 0; i < r2; i++ {
+			for j := 0; j < c2; j++ {
+				verifAssert(m.At(i, j) == 0, "CDense.ReuseAs: the matrix is zero")
+			}
+		}
+	}
+	verifReach("end")
+}
+
+// ---------------------------------------------------------------------------
+// 5. VecDense: Norm on views, views, CloneFromVec, Dot / Inner with every kind
+// ---------------------------------------------------------------------------
+
+// VerifC04_VecNorm: v.Norm(1) == sum |v_i|, v.Norm(Inf) == max |v_i| for a
+// compact VecDense, strided views and their SliceVec windows. (-merge)
+func VerifC04_VecNorm() {
+	maxN := verifParam("c04vn", 3)
+	n := verifChoose("n", 1, maxN)
+	ks := []int{verifC04vVec, verifC04vStrided, verifC04mvSlice, verifC04mvRowView}
+	k := ks[verifChoose("k", 0, len(ks)-1)]
+	o := verifC04mMkVec("v", k, n)
+	v := o.v.(*VecDense)
+	var s float64
+	for i := 0; i < n; i++ {
+		s += verifAbsF(o.val[i])
+	}
+	verifAssertEqF(v.Norm(1), s, "VecDense.Norm(1) is the sum of the magnitudes")
+	got := v.Norm(math.Inf(1))
+	attained := false
+	for i := 0; i < n; i++ {
+		verifAssert(got >= verifAbsF(o.val[i]), "VecDense.Norm(Inf) bounds every magnitude")
+		attained = verifOr(attained, got == verifAbsF(o.val[i]))
+	}
+	verifAssert(attained, "VecDense.Norm(Inf) is attained")
+	o.unchanged("Norm operand")
+	verifReach("end")
+}
+
+// VerifC04_VecViews: SliceVec, ColViewOf, RowViewOf, CloneFromVec (zero value
+// and compact receivers; the strided receiver is VerifC04_CloneFromVec).
+func VerifC04_VecViews() {
+	maxN := verifParam("c04vn", 3)
+	n := verifChoose("n", 1, maxN)
+	k := verifChoose("k", 0, verifC04mNVecKinds-1)
+	o := verifC04mMkVec("v", k, n)
+	if v, ok := o.v.(*VecDense); ok {
+		for i := 0; i < n; i++ {
+			for e := i + 1; e <= n; e++ {
+				w := v.SliceVec(i, e)
+				verifAssert(w.Len() == e-i, "SliceVec: length")
+				wr, wc := w.Dims()
+				verifAssert(wr == e-i && wc == 1, "SliceVec: Dims")
+				for x := 0; x < e-i; x++ {
+					verifAssert(verifSame(w.AtVec(x), o.val[i+x]), "SliceVec reads the window")
+				}
+			}
+		}
+	}
+	// CloneFromVec into a zero value and into a compact vector of another length
+	for st := 0; st <= 1; st++ {
+		n2 := verifChoose(verifC04mN("n2", st), 1, maxN)
+		rv := verifC04mkVRecv(verifC04nm("w", st, 0), st, n2)
+		rv.v.CloneFromVec(o.v)
+		verifAssert(rv.v.Len() == n, "CloneFromVec: length")
+		if rv.v.Len() == n {
+			for i := 0; i < n; i++ {
+				verifAssert(verifSame(rv.v.AtVec(i), o.val[i]), "CloneFromVec: element")
+			}
+		}
+		o.unchanged("CloneFromVec a")
+		if st == 0 {
+			break // one zero-value receiver is enough (no second choice needed)
+		}
+	}
+	verifReach("end")
+}
+
+// VerifC04_VecViewOf: v.ColViewOf(m, j) / v.RowViewOf(m, i) for a compact
+// Dense and a strided window, receiver empty or of the matching length; a
+// receiver of another length panics.
+func VerifC04_VecViewOf() {
+	maxN := verifParam("c04n", 2)
+	r := verifChoose("r", 1, maxN)
+	c := verifChoose("c", 1, maxN)
+	st := verifChoose("st", 1, 2)
+	rv := verifC04mkRecv("m", st, r, c)
+	val := verifC04mSnap(rv.d)
+	for pre := 0; pre <= 1; pre++ {
+		for j := 0; j < c; j++ {
+			v := &VecDense{}
+			if pre == 1 {
+				v = NewVecDense(r, nil)
+			}
+			v.ColViewOf(rv.d, j)
+			verifAssert(v.Len() == r, "ColViewOf: length")
+			for i := 0; i < r; i++ {
+				verifAssert(verifSame(v.AtVec(i), val[i*c+j]), "ColViewOf reads the column")
+			}
+			x := verifFloat("x" + verifC04nm("c", pre, j))
+			v.SetVec(0, x)
+			verifAssert(verifSame(rv.d.At(0, j), x), "ColViewOf: writes reach the matrix")
+			rv.d.Set(0, j, val[j])
+		}
+		for i := 0; i < r; i++ {
+			v := &VecDense{}
+			if pre == 1 {
+				v = NewVecDense(c, nil)
+			}
+			v.RowViewOf(rv.d, i)
+			verifAssert(v.Len() == c, "RowViewOf: length")
+			for j := 0; j < c; j++ {
+				verifAssert(verifSame(v.AtVec(j), val[i*c+j]), "RowViewOf reads the row")
+			}
+			x := verifFloat("x" + verifC04nm("r", pre, i))
+			v.SetVec(0, x)
+			verifAssert(verifSame(rv.d.At(i, 0), x), "RowViewOf: writes reach the matrix")
+			rv.d.Set(i, 0, val[i*c])
+		}
+	}
+	w := NewVecDense(r+1, nil)
+	pan, fault, _ := verifCatch(func() { w.ColViewOf(rv.d, 0) })
+	verifAssert(pan && !fault, "ColViewOf: a receiver of another length panics")
+	w = NewVecDense(c+1, nil)
+	pan, fault, _ = verifCatch(func() { w.RowViewOf(rv.d, 0) })
+	verifAssert(pan && !fault, "RowViewOf: a receiver of another length panics")
+	rv.check(val, "view parent")
+	verifReach("end")
+}
+
+// VerifC04_DotKinds: Dot(x, y) for every pair of column Vector kinds,
+// including SliceVec / RowView views. (The row vectors x.TVec() are in
+// VerifC04_DotRowVector.)
+func VerifC04_DotKinds() {
+	verifC04mDot(false)
+}
+
+// VerifC04_DotRowVector: Dot(x, y) where at least one argument is the row
+// vector v.TVec() (a Vector of the same length holding the same elements).
+// (OPEN VIOLATION on the unchanged tree, see notes/C04_more.md.)
+func VerifC04_DotRowVector() {
+	verifC04mDot(true)
+}
+
+func verifC04mDot(row bool) {
+	maxN := verifParam("c04vn", 3)
+	n := verifChoose("n", 1, maxN)
+	kx := verifChoose("kx", 0, verifC04mNVecKinds-1)
+	ky := verifChoose("ky", 0, verifC04mNVecKinds-1)
+	if (kx >= verifC04mvTVec || ky >= verifC04mvTVec) != row {
+		return
+	}
+	x := verifC04mMkVec("x", kx, n)
+	y := verifC04mMkVec("y", ky, n)
+	var s float64
+	for i := 0; i < n; i++ {
+		s += x.val[i] * y.val[i]
+	}
+	verifAssertEqF(Dot(x.v, y.v), s, "Dot equals sum x_i*y_i")
+	x.unchanged("Dot x")
+	y.unchanged("Dot y")
+	verifReach("end")
+}
+
+// VerifC04_InnerKinds: Inner(x, A, y) with x and y of the extended Vector
+// kinds (views, row vectors) and A of every Matrix kind.
+func VerifC04_InnerKinds() {
+	maxN := verifParam("c04n", 2)
+	r := verifChoose("r", 1, maxN)
+	c := verifChoose("c", 1, maxN)
+	kx := verifChoose("kx", verifC04nVecKinds, verifC04mNVecKinds-1)
+	ky := verifChoose("ky", verifC04nVecKinds, verifC04mNVecKinds-1)
+	ka := verifC04pick("ka", r, c)
+	x := verifC04mMkVec("x", kx, r)
+	y := verifC04mMkVec("y", ky, c)
+	a := verifC04mk("a", ka, r, c)
+	var s float64
+	for i := 0; i < r; i++ {
+		for j := 0; j < c; j++ {
+			s += x.val[i] * a.at(i, j) * y.val[j]
+		}
+	}
+	verifAssertEqF(Inner(x.v, a.m, y.v), s, "Inner equals sum x_i*a_ij*y_j")
+	x.unchanged("Inner x")
+	y.unchanged("Inner y")
+	a.unchanged("Inner a")
+	verifReach("end")
+}
+
+// ---------------------------------------------------------------------------
+// 6. wrapper matrices and factorizations as operands of Dense.Mul / Add
+// ---------------------------------------------------------------------------
+
+const (
+	verifC04wBandTBand = iota // TBand() of a c×r BandDense
+	verifC04wBandT            // T() of a c×r BandDense
+	verifC04wVecTVec          // r == 1: TVec() of a compact VecDense used as a Matrix
+	verifC04wVecTT            // c == 1: T() of T() of a strided VecDense
+	// square only
+	verifC04wSymBandTBand
+	verifC04wTriBandL
+	verifC04wTriBandUTBand
+	verifC04wTriBandUTTriBand
+	verifC04wTriBandLTTri
+	verifC04wTriBandLT
+	verifC04wTridiagT
+	verifC04wTridiagTBand
+	verifC04wDiagTBand
+	verifC04wDiagTTriBand
+	verifC04wDiagTTri
+	verifC04wTriTTriT // T() of TTri() of an upper TriDense
+	verifC04wLU
+	verifC04wChol
+	verifC04wQR
+	verifC04wLQ
+	verifC04wNKinds
+)
+
+func verifC04mWKindsFor(r, c int) []int {
+	ks := []int{verifC04wBandTBand, verifC04wBandT, verifC04wQR, verifC04wLQ}
+	if r == 1 {
+		ks = append(ks, verifC04wVecTVec)
+	}
+	if c == 1 {
+		ks = append(ks, verifC04wVecTT)
+	}
+	if r == c {
+		for k := verifC04wSymBandTBand; k <= verifC04wChol; k++ {
+			ks = append(ks, k)
+		}
+	}
+	return ks
+}
+
+// verifC04mMkW builds an r×c operand of a wrapper kind.
+func verifC04mMkW(name string, kind, r, c int) *verifC04op {
+	o := &verifC04op{r: r, c: c}
+	kb := verifC04min(1, r-1) // band width used for the square band types
+	switch kind {
+	case verifC04wBandTBand, verifC04wBandT:
+		// the c×r parent has kl = min(1, c-1), ku = min(1, r-1)
+		kl, ku := verifC04min(1, c-1), verifC04min(1, r-1)
+		o.back = verifFloats(name, verifC04min(c, r+kl)*(kl+ku+1))
+		b := NewBandDense(c, r, kl, ku, o.back)
+		if kind == verifC04wBandTBand {
+			o.m = b.TBand()
+		} else {
+			o.m = b.T()
+		}
+	case verifC04wVecTVec:
+		o.back = verifFloats(name, c)
+		o.m = NewVecDense(c, o.back).TVec()
+	case verifC04wVecTT:
+		o.back = verifFloats(name, r*2)
+		o.m = NewDense(r, 2, o.back).ColView(1).T().T()
+	case verifC04wSymBandTBand:
+		o.back = verifFloats(name, r*(kb+1))
+		o.m = NewSymBandDense(r, kb, o.back).TBand()
+	case verifC04wTriBandL:
+		o.back = verifFloats(name, r*(kb+1))
+		o.m = NewTriBandDense(r, kb, Lower, o.back)
+	case verifC04wTriBandUTBand:
+		o.back = verifFloats(name, r*(kb+1))
+		o.m = NewTriBandDense(r, kb, Upper, o.back).TBand()
+	case verifC04wTriBandUTTriBand:
+		o.back = verifFloats(name, r*(kb+1))
+		o.m = NewTriBandDense(r, kb, Upper, o.back).TTriBand()
+	case verifC04wTriBandLTTri:
+		o.back = verifFloats(name, r*(kb+1))
+		o.m = NewTriBandDense(r, kb, Lower, o.back).TTri()
+	case verifC04wTriBandLT:
+		o.back = verifFloats(name, r*(kb+1))
+		o.m = NewTriBandDense(r, kb, Lower, o.back).T()
+	case verifC04wTridiagT, verifC04wTridiagTBand:
+		o.back = verifFloats(name, 3*r)
+		var dl, du []float64
+		if r > 1 {
+			dl, du = o.back[r:2*r-1], o.back[2*r:3*r-1]
+		}
+		t := NewTridiag(r, dl, o.back[:r], du)
+		if kind == verifC04wTridiagT {
+			o.m = t.T()
+		} else {
+			o.m = t.TBand()
+		}
+	case verifC04wDiagTBand:
+		o.back = verifFloats(name, r)
+		o.m = NewDiagDense(r, o.back).TBand()
+	case verifC04wDiagTTriBand:
+		o.back = verifFloats(name, r)
+		o.m = NewDiagDense(r, o.back).TTriBand()
+	case verifC04wDiagTTri:
+		o.back = verifFloats(name, r)
+		o.m = NewDiagDense(r, o.back).TTri()
+	case verifC04wTriTTriT:
+		o.back = verifFloats(name, r*r)
+		o.m = NewTriDense(r, Upper, o.back).TTri().T()
+	case verifC04wLU:
+		// an arbitrary packed factor with an arbitrary pivot permutation
+		o.back = verifFloats(name, r*r)
+		o.m = &LU{lu: NewDense(r, r, o.back), piv: verifC04mPerm(name+"p", r), swaps: make([]int, r), cond: 1, ok: true}
+	case verifC04wChol:
+		o.back = verifFloats(name, r*r)
+		o.m = &Cholesky{chol: NewTriDense(r, Upper, o.back), cond: 1}
+	case verifC04wQR:
+		// A = Q*R with arbitrary r×r Q and the upper trapezoid of an r×c qr
+		o.back = verifFloats(name, r*c+r*r)
+		o.m = &QR{qr: NewDense(r, c, o.back[:r*c]), q: NewDense(r, r, o.back[r*c:]), tau: make([]float64, verifC04min(r, c)), cond: 1}
+	case verifC04wLQ:
+		o.back = verifFloats(name, r*c+c*c)
+		o.m = &LQ{lq: NewDense(r, c, o.back[:r*c]), q: NewDense(c, c, o.back[r*c:]), tau: make([]float64, verifC04min(r, c)), cond: 1}
+	default:
+		panic("verifC04mMkW: kind")
+	}
+	verifC04mFinish(o)
+	return o
+}
+
+// VerifC04_WrapperOperands: Dense.Mul and Dense.Add accept the transpose
+// wrappers of the banded / triangular / vector types and the factorization
+// types (used as plain matrices) in either argument position and agree with
+// the generic definition computed from At. The other operand ranges over
+// {Dense, T() of a strided window, Matrix-only type}. (-merge)
+func VerifC04_WrapperOperands() {
+	maxN := verifParam("c04n", 2)
+	op := verifChoose("op", 0, 1) // 0 Mul, 1 Add
+	pos := verifChoose("pos", 0, 1)
+	r := verifChoose("r", 1, maxN)
+	c := verifChoose("c", 1, maxN)
+	k := r
+	if op == 0 {
+		k = verifChoose("k", 1, maxN)
+	}
+	// shape of the wrapper operand and of the other one
+	var wr, wc, orr, oc int
+	switch {
+	case op == 1:
+		wr, wc, orr, oc = r, c, r, c
+	case pos == 0:
+		wr, wc, orr, oc = r, k, k, c
+	default:
+		wr, wc, orr, oc = k, c, r, k
+	}
+	wks := verifC04mWKindsFor(wr, wc)
+	kw := wks[verifChoose("kw", 0, len(wks)-1)]
+	if kw == verifC04wQR && wr < wc || kw == verifC04wLQ && wr > wc {
+		return
+	}
+	ko := verifC04mReduced[verifChoose("ko", 0, len(verifC04mReduced)-1)]
+	w := verifC04mMkW("w", kw, wr, wc)
+	o := verifC04mk("o", ko, orr, oc)
+	a, b := w, o
+	if pos == 1 {
+		a, b = o, w
+	}
+	var want []float64
+	if op == 0 {
+		want = verifC04mMul(a.val, r, k, b.val, c)
+	} else {
+		want = make([]float64, r*c)
+		for i := range want {
+			want[i] = a.val[i] + b.val[i]
+		}
+	}
+	for st := 0; st <= 2; st++ {
+		rv := verifC04mkRecv(verifC04nm("m", st, 0), st, r, c)
+		if op == 0 {
+			rv.d.Mul(a.m, b.m)
+		} else {
+			rv.d.Add(a.m, b.m)
+		}
+		rv.check(want, "wrapper operand")
+		a.unchanged("wrapper operand a")
+		b.unchanged("wrapper operand b")
+	}
+	verifReach("end")
+}
+
+// VerifC04_WrapperPairs: both operands of Mul are wrappers (square shapes).
+func VerifC04_WrapperPairs() {
+	maxN := verifParam("c04n", 2)
+	n := verifChoose("n", 1, maxN)
+	wks := verifC04mWKindsFor(n, n)
+	ka := wks[verifChoose("ka", 0, len(wks)-1)]
+	kb := wks[verifChoose("kb", 0, len(wks)-1)]
+	a := verifC04mMkW("a", ka, n, n)
+	b := verifC04mMkW("b", kb, n, n)
+	want := verifC04mMul(a.val, n, n, b.val, n)
+	for st := 0; st <= 2; st++ {
+		rv := verifC04mkRecv(verifC04nm("m", st, 0), st, n, n)
+		rv.d.Mul(a.m, b.m)
+		rv.check(want, "Mul of two wrappers")
+		a.unchanged("wrapper a")
+		b.unchanged("wrapper b")
+	}
+	verifReach("end")
 }
 
 var (
